@@ -1525,6 +1525,7 @@ impl Vm {
             Err(error) => {
                 let exc_object = self.new_root_obj_err_from_error(error);
                 self.poke(0, Value::ObjInstance(exc_object.as_gc()));
+                self.active_fiber_mut().error_ip = None;
                 self.unwind_stack()?;
             }
         }
@@ -1541,6 +1542,12 @@ impl Vm {
             return Err(self.new_error_from_value(exc_object));
         };
 
+        // The saved throw location is only meaningful while the frame that threw is still the
+        // current one and the exception is still propagating.
+        let caught = handler.catch_ip != handler.finally_ip;
+        if caught || handler.frame_count < self.active_fiber().frames.len() {
+            self.active_fiber_mut().error_ip = None;
+        }
         self.active_fiber_mut()
             .stack
             .truncate(handler.init_stack_size);
@@ -1758,6 +1765,7 @@ impl Vm {
     fn try_handle_error(&mut self, error: Error) -> Result<(), Error> {
         let obj_err = self.new_root_obj_err_from_error(error);
         self.push(Value::ObjInstance(obj_err.as_gc()));
+        self.active_fiber_mut().error_ip = None;
         self.unwind_stack()
     }
 
